@@ -1,7 +1,7 @@
 (* Correspondence run for C20: case = what was written + what the real loaders did with it. *)
 From Coq Require Import List ZArith NArith Bool String.
 Import ListNotations.
-From SygmaV Require Export Lib.RunLib Lib.Hex Model.C20 Model.C20Num.
+From SygmaV Require Export Lib.RunLib Lib.Hex Model.C20 Model.C20Num Model.C20Hist Model.C20Elapsed.
 Local Open Scope Z_scope.
 
 Inductive case :=
@@ -19,6 +19,12 @@ Inductive case :=
 | ChainDoc (d : chain_doc) (impl : chain_obs) (after : option chain_after)
 | Net (v : Z) (impl : option Z)                        (* substrateNetwork through NewSubstrateConfig *)
 | Merge (locals shared : list obj) (impl : option (list obj))    (* processRawConfig *)
+(* a HISTORY of loads in one process against the SAME maps of a shared configuration (the document
+   [shared] as the caller wrote it): per load the local document, what the loader returned - the chain
+   entries read one after the other, in some cases each one CHANGED by the caller right after it was
+   read - and whether the caller's shared maps still equalled a copy taken before the history;
+   [still] = at the end every earlier result held what it held when the runner left it *)
+| MergeHist (shared : list obj) (loads : list (list obj * option (list obj) * bool)) (still : bool)
 (* string / bool / list settings of the relayer configuration or of one chain configuration, written
    through the file or env loader (chains also: handed to the constructor directly): rule and written
    text per setting, and the values found in the loaded configuration *)
@@ -35,7 +41,10 @@ Inductive case :=
 | PortText (text : string) (impl : option Z)
 (* uploaderConfig.maxRetries of the relayer section of a config FILE (viper.Unmarshal: weakly typed):
    written as a number, a fraction, a string, a bool, or left out; impl = UploaderConfig.MaxRetries *)
-| Retries (w : wnum) (impl : option nval).
+| Retries (w : wnum) (impl : option nval)
+(* uploaderConfig.maxElapsedTime (a time.Duration) of the same section, written as a number (of
+   nanoseconds), a fraction, a duration string, a bool, or left out; impl = the loaded nanoseconds *)
+| Elapsed (w : wnum) (impl : option Z).
 
 (* texts that are not printable ASCII are written by the runner as [hs "<hex of the UTF-8 bytes>"] *)
 Definition hs (h : string) : string := string_of_bytes (unhex h).
@@ -135,6 +144,15 @@ Definition agree (c : case) : bool :=
       | None, None => true
       | _, _ => false
       end
+  (* the model of every load is [process] on the documents as written; the loaders leave the caller's
+     shared maps and the earlier results alone *)
+  | MergeHist s loads still =>
+      forallb (fun x : list obj * option (list obj) * bool =>
+                 snd x && match process (fst (fst x)) s, snd (fst x) with
+                          | Some a, Some b => objs_eqb a b
+                          | None, None => true
+                          | _, _ => false
+                          end) loads && still
   | Strs ws impl =>
       match load_strings ws, impl with
       | Some a, Some b => strings_eqb a b
@@ -146,6 +164,7 @@ Definition agree (c : case) : bool :=
   | Fee t impl => opt_Z_eqb (parse_fee t) impl
   | PortText t impl => opt_Z_eqb (parse_port0 t) impl
   | Retries w impl => opt_nval_eqb (model_retries w) impl
+  | Elapsed w impl => opt_Z_eqb (model_elapsed w) impl
   end.
 
 Definition judge (c : case) : bool :=
@@ -156,6 +175,9 @@ Definition judge (c : case) : bool :=
   | ChainDoc d impl after => doc_ok d impl && use_ok impl after
   | Net v impl => net_ok v impl
   | Merge l s impl => merge_ok l s impl
+  (* the specification of one load for EVERY load of the history, against the shared document as written
+     (C20_loadhist_every_load) *)
+  | MergeHist s loads still => merge_hist_ok s (map (fun x : list obj * option (list obj) * bool => fst x) loads)
   | Strs ws impl => strs_ok ws impl
   | Level t impl => level_ok t impl
   | NumField k f w impl => num_ok k f w impl
@@ -163,6 +185,7 @@ Definition judge (c : case) : bool :=
   (* the port syntax is Go's base-0 syntax: the text is read as that syntax reads it *)
   | PortText t impl => port0_ok t impl
   | Retries w impl => retries_ok w impl
+  | Elapsed w impl => elapsed_ok w impl
   end.
 
 Definition some_b {A} (o : option A) : N := match o with Some _ => 1%N | None => 0%N end.
@@ -182,6 +205,10 @@ Definition tag (c : case) : N :=
   | Fee t _ => (22 + some_b (parse_fee t))%N
   | PortText t _ => (24 + some_b (parse_port0 t))%N
   | Retries w _ => (26 + some_b (model_retries w))%N
+  | Elapsed w _ => (30 + some_b (model_elapsed w))%N
+  | MergeHist s loads _ =>
+      (28 + (if forallb (fun x : list obj * option (list obj) * bool => match snd (fst x) with Some _ => true | None => false end) loads
+             then 1 else 0))%N
   end.
 
 Definition check_all := check_cases agree judge tag.
